@@ -72,7 +72,7 @@ BUILT = {
             'DESIGN.md 3/C05'),
     'C06': ('model_checking',
             'explicit-state exploration of definition/reference histories across files against a reference scope resolver',
-            'Every history over 29 symbols (global/file/local definitions with colliding names, names differing only in letter case, references, constants, scope-resetting '
+            'Every history over 31 symbols (global/file/local definitions with colliding names, names differing only in letter case, references, constants, scope-resetting '
             'directives, six catalogue includes, six ill-named labels) up to depth 3 (thorough 4) and one level deeper over a core '
             'alphabet, with and without closing forward definitions; the emitted byte of every reference must be the value of the '
             'unique visible definition, otherwise the program must be rejected.',
@@ -184,7 +184,7 @@ BUILT = {
     'C15': ('model_checking',
             'schedule exploration of set-iteration order under an import-hook scheduler (deviation-bounded), plus exhaustive CLI environment product',
             'The explorer owns the only internal source of run-to-run variation, set iteration order: every bespokeasm module is loaded '
-            'through an AST rewrite that makes each iteration of a set of hash-randomised elements a choice point; for 11 programs x 2 '
+            'through an AST rewrite that makes each iteration of a set of hash-randomised elements a choice point; for 12 programs x 2 '
             'formats the default schedule (replayed twice) and every schedule with one (thorough two) deviating choice point must give '
             'identical status, image and pretty print. End to end, the same programs x formats run through the real CLI for every '
             'combination of hash seed, working directory, include-directory order, include-directory spelling and environment.',
